@@ -478,7 +478,7 @@ func TestC20(t *testing.T) {
 	}
 	vkit.Run(t, vkit.Spec[c20Case]{
 		ID: "C20",
-		Rule: "rapid-generated payload maps with unique keys (1-10 fields + optional bulk fields; nested maps/arrays to depth 2; every msgpack scalar wire form incl. int8..64/uint8..64/float32/64/str8..32/bin/timestamp32/64/96; binary keys; JSON numbers as literals; key names: plain, ID fields, look-alikes of reserved meta.* names, odd names, a few reserved names) sent to a real Router as JSON event, msgpack event, JSON batch, msgpack batch (optionally gzip/zstd), routed either straight upstream or through a collector stand-in that calls MemoizeFields/Exists/Get/Set like the real collector (sampler key fields configured so they are memoized at ingest and/or later), optionally via a peer hop, and posted by a real DirectTransmission (zstd or not, max batch 1/2/50) to a fake Honeycomb that decodes with an independent msgpack decoder. Oracle: typed equality of every non-reserved client field, no duplicates, no additions except reserved meta.* names and configured additional attributes. Non-trivial: an event with a nested value or a key that is also a sampling-key field. Distinct = distinct case JSON.",
+		Rule: "rapid-generated payload maps with unique keys (1-10 fields + optional bulk fields; nested maps/arrays to depth 2; every msgpack scalar wire form incl. int8..64/uint8..64/float32/64/str8..32/bin/timestamp32/64/96; binary keys; JSON numbers as literals; key names: plain, ID fields, look-alikes of reserved meta.* names, odd names, a few reserved names) sent to a real Router as JSON event, msgpack event, JSON batch, msgpack batch (optionally gzip/zstd), routed either straight upstream or through a collector stand-in that calls MemoizeFields/Exists/Get/Set like the real collector (sampler key fields configured so they are memoized at ingest and/or later), optionally via a peer hop, and posted by a real DirectTransmission (zstd or not, max batch 1/2/50) to a fake Honeycomb that decodes with an independent msgpack decoder. Oracle: typed equality of every non-reserved client field, no duplicates, no additions except reserved meta.* names and configured additional attributes. About 1 case in 130 runs the concurrent sub-mode instead: 2/4/8 client goroutines released by a barrier in each of 40 (thorough 100) rounds post same-shaped JSON/msgpack batches and single events whose values differ per request; events are matched by a unique id and must carry exactly the fields of their own request. Non-trivial: an event with a nested value or a key that is also a sampling-key field. Distinct = distinct case JSON.",
 		Assumptions: []string{
 			"reserved names = the 17 metadata field names of types/payload.go; client fields with those names are not judged",
 			"the collector stand-in uses only the exported Payload API in the way collect/collector_worker.go and collect.go sendTraces do (MemoizeFields, Exists, Get, Set of meta.* and AdditionalAttributes); the real InMemCollector is exercised by the collector/router engines",
